@@ -47,9 +47,9 @@ TARGETS = [
     "sigma.validation:SigmaValidator.validate_rules",
 ]
 BOUNDS = {
-    "modelled sources": "4 (quick) / 8 (thorough) iteration orders of every set created by the source of sigma.* (set()/frozenset() calls, default_factory=set, set displays and comprehensions via the import hook) and of regex flag sets; 4 draws of random.choices",
+    "modelled sources": "8 (quick) / 12 (thorough) iteration orders of every set created by the source of sigma.* (set()/frozenset() calls, default_factory=set, set displays and comprehensions via the import hook) and of regex flag sets; 4 draws of random.choices",
     "corpus": "14 items: several deferred query parts, hash field splitting incl. its error text, one-to-many field mappings (incl. repeated targets and nested pipelines), add_condition, filters, regex flags with supported/unsupported flags, correlation rule fields with and without group-by, error texts (unknown correlation condition keys, unreferenced pipeline conditions, strict field mapping failure, collection errors), validator issue texts",
-    "outside": "actual PYTHONHASHSEED randomisation / process starts (only the 3-seed subprocess self-check, run with ordinary sets); sets created inside C code or third-party libraries (dict views, pyparsing, yaml); other orders than the 4 / 8 modelled ones",
+    "outside": "actual PYTHONHASHSEED randomisation / process starts (only the 3-seed subprocess self-check, run with ordinary sets); sets created inside C code or third-party libraries (dict views, pyparsing, yaml); other orders than the 8 / 12 modelled ones",
 }
 ASSUMPTIONS = [
     "the draws of one run are pairwise distinct (a collision of two 10-letter draws has probability 26^-10 and is outside the model)",
@@ -250,11 +250,11 @@ def check(item: int, mode: int, draw: int) -> bool:
 def c20_modes(item: int, mode: int, draw: int) -> bool:
     """
     pre: 0 <= item < NITEMS
-    pre: 0 <= mode < P("MODES", 4)
+    pre: 0 <= mode < P("MODES", 8)
     pre: 0 <= draw < 4
     post: _
     """
-    i, m, d = sel(item, NITEMS), sel(mode, 8), sel(draw, 4)
+    i, m, d = sel(item, NITEMS), sel(mode, 12), sel(draw, 4)
     with concrete_section():
         ok = check(i, m, d)
     return fin(ok)
@@ -303,7 +303,7 @@ def c20_subprocess_seeds() -> bool:
     return len(outs) == 1
 
 
-OBLIGATIONS = [Ob("c20_modes", {}, 900), Ob("c20_modes", {"MODES": 8}, 1800, tier="thorough")]
+OBLIGATIONS = [Ob("c20_modes", {}, 900), Ob("c20_modes", {"MODES": 12}, 1800, tier="thorough")]
 
 SELFCHECKS = [
     ("c20_modes", {}, (0, 1, 1), True),
